@@ -26,6 +26,8 @@ type Profile struct {
 	SweepEvery                      int      // emit a read sweep every n ops (0 = never)
 	SearchSweep                     bool
 	NoHostile                       bool
+	CaseHeavy                       bool
+	EmptyOften                      bool
 }
 
 type Gen struct {
@@ -38,6 +40,8 @@ type Gen struct {
 	usedK   map[int]bool
 	async   bool
 	asyncMs int
+	ext     string
+	gz      bool
 	ops     []Op
 }
 
@@ -57,6 +61,8 @@ var (
 	valsW   = []string{"", "w", "W", "bad", "Bad", "ww"}
 	valsD   = []int16{-1, 0, 1, 32767, -32768}
 )
+
+var valsCase = []string{"straße", "STRASSE", "Éa", "éA", "ǅx", "ǆX", "ǄX", "İb", "ib", "ıb", "Ib", "\u212a1", "k1", "K1", "ſt", "st", "ST", "ÿz", "ŸZ", "bad", "BAD", "Bad"}
 
 func (g *Gen) spec(k int) Spec {
 	r := g.r
@@ -83,6 +89,17 @@ func (g *Gen) spec(k int) Spec {
 		HasP: r.Intn(100) < 70, X: valsX[pick(len(valsX))], W: hexs(valsW[pick(len(valsW))]),
 		HasQ: r.Intn(100) < 50, D: valsD[pick(len(valsD))],
 		Flag: r.Intn(2) == 0, L: r.Intn(4) - 1, M: r.Intn(4) - 1,
+	}
+	if g.p.CaseHeavy {
+		sp.S = hexs(valsCase[r.Intn(len(valsCase))])
+		sp.Z = hexs(valsCase[r.Intn(len(valsCase))])
+		sp.W = hexs(valsCase[r.Intn(len(valsCase))])
+		if r.Intn(100) >= g.p.PBadInput && (sp.W == hexs("bad") || sp.W == hexs("BAD") || sp.W == hexs("Bad")) {
+			sp.W = hexs("st")
+		}
+		if r.Intn(100) >= g.p.PBadInput && (sp.S == hexs("bad") || sp.S == hexs("BAD") || sp.S == hexs("Bad")) {
+			sp.S = hexs("st")
+		}
 	}
 	// the hook triggers are kept rare unless the profile asks for bad input
 	if r.Intn(100) >= g.p.PBadInput {
@@ -176,8 +193,14 @@ func (g *Gen) probe(field string) Probe {
 	case "G":
 		return Probe{T: "float32", F: uint64(math.Float32bits(valsG[r.Intn(len(valsG))]))}
 	case "S", "Emb.Z":
+		if g.p.CaseHeavy {
+			return Probe{T: "string", S: hexs(valsCase[r.Intn(len(valsCase))])}
+		}
 		return Probe{T: "string", S: hexs(valsS[r.Intn(len(valsS))])}
 	case "P.W":
+		if g.p.CaseHeavy {
+			return Probe{T: "string", S: hexs(valsCase[r.Intn(len(valsCase))])}
+		}
 		return Probe{T: "string", S: hexs(valsW[r.Intn(len(valsW))])}
 	case "Tm":
 		v := valsTm[r.Intn(len(valsTm))]
@@ -332,7 +355,20 @@ func History(p *Profile, seed int64) []Op {
 	r := g.r
 	g.cons = g.genCons()
 	g.add(Op{Op: "open", Lower: r.Intn(100) < p.PLowerDir})
-	g.add(g.createOp())
+	first := g.createOp()
+	g.ext = first.Ext
+	g.gz = first.Gz
+	g.add(first)
+	if p.EmptyOften {
+		for i := 0; i < 6; i++ {
+			f := g.field()
+			cmp, pr := g.cmpAndProbe(f)
+			g.nextSid++
+			g.sids = append(g.sids, g.nextSid)
+			g.add(Op{Op: "search", Sid: g.nextSid, Field: f, Cmp: cmp, Probe: &pr})
+			g.add(Op{Op: "collect", Sid: g.nextSid})
+		}
+	}
 	n := p.Len[0] + r.Intn(p.Len[1]-p.Len[0]+1)
 	for i := 0; i < n; i++ {
 		kind := weighted(r, p.Weights)
@@ -433,7 +469,68 @@ func History(p *Profile, seed int64) []Op {
 			g.add(Op{Op: "ls"})
 			g.add(Op{Op: "disk", K: g.pickK(10)})
 		case "recreate":
+			op := g.createOp()
+			switch x := r.Intn(100); {
+			case x < 15:
+				// different constraints on one field
+				cons := append([]DCons{}, g.cons...)
+				cons = append(cons, DCons{Path: "Emb.Y", C: []string{"i", "u", ""}[r.Intn(3)]})
+				op.Cons = cons
+			case x < 30:
+				op.Ext = ".other"
+			default:
+				op.Ext = g.ext
+			}
+			g.add(op)
+			g.add(Op{Op: "sleep", Ms: 120})
+		case "reshape":
+			g.add(Op{Op: "close"})
+			g.add(Op{Op: "reshape", N: uint64(r.Intn(3))})
+			g.add(Op{Op: "reopen"})
+			g.sids = nil
+			// every kind of call must be refused
+			sp := g.spec(g.pickK(50))
+			g.add(Op{Op: "ins", Spec: &sp})
+			g.add(Op{Op: "get", K: g.pickK(10)})
+			g.add(Op{Op: "count"})
+			g.add(Op{Op: "del", K: g.pickK(10)})
 			g.add(g.createOp())
+			g.add(Op{Op: "ls"})
+			g.add(Op{Op: "reshape", N: 99}) // restore
+			g.add(Op{Op: "reopen"})
+		case "tamper":
+			switch r.Intn(6) {
+			case 0, 1:
+				g.add(Op{Op: "rmfile", K: g.pickK(5)})
+			case 2:
+				k := g.p.MaxK + 2 + r.Intn(3)
+				g.usedK[k] = true
+				sp := g.spec(k)
+				g.add(Op{Op: "addfile", Spec: &sp})
+			case 3:
+				g.add(Op{Op: "close"})
+				g.add(Op{Op: "dropentry", K: g.pickK(5), N: 1})
+				g.add(Op{Op: "reopen"})
+				g.sids = nil
+			case 4:
+				g.add(Op{Op: "close"})
+				g.add(Op{Op: "dropentry", K: g.pickK(5), N: 0})
+				g.add(Op{Op: "reopen"})
+				g.sids = nil
+			case 5:
+				g.add(Op{Op: "close"})
+				g.add(Op{Op: "rmschema"})
+				g.add(Op{Op: "reopen"})
+				g.sids = nil
+				g.add(Op{Op: "count"})
+				op := g.createOp()
+				op.Ext = g.ext
+				op.Gz = g.gz // files written under another naming scheme would be unreadable
+				g.add(op)
+			}
+		case "repair":
+			g.add(Op{Op: "repair"})
+			g.add(Op{Op: "control"})
 		}
 		if p.SweepEvery > 0 && i%p.SweepEvery == p.SweepEvery-1 {
 			g.sweep()
@@ -450,11 +547,58 @@ func History(p *Profile, seed int64) []Op {
 }
 
 var profiles = map[string]*Profile{
+	// C01: CRUD refinement, every configuration
 	"crud": {Name: "crud", Len: [2]int{10, 40}, MaxK: 8, PIndex: 35, PUnique: 8, PUpper: 15, PLower: 15,
 		PCache: 50, PAsync: 30, PGz: 30, PLowerDir: 30, PExt: 30, PBadInput: 6, SweepEvery: 6, NoHostile: true,
 		Weights: map[string]int{"ins": 30, "many": 6, "bulk": 4, "del": 10, "delall": 1, "get": 10, "exist": 4, "count": 2, "all": 3,
 			"search": 4, "sdel": 3, "reopen": 4, "flush": 2}},
+	// C02: query trees over all fields and operators
 	"search": {Name: "search", Len: [2]int{15, 50}, MaxK: 14, PIndex: 50, PUnique: 3, PUpper: 10, PLower: 10,
-		PCache: 30, PAsync: 15, PGz: 10, PLowerDir: 10, PExt: 10, PBadInput: 0, PWrongProbe: 0, SweepEvery: 12, SearchSweep: true, NoHostile: true,
+		PCache: 30, PAsync: 15, PGz: 10, PLowerDir: 10, PExt: 10, SweepEvery: 12, SearchSweep: true, NoHostile: true,
 		Weights: map[string]int{"ins": 30, "many": 4, "del": 8, "search": 20, "refine": 20, "collect": 20, "sdel": 3, "reopen": 3, "control": 3, "count": 1}},
+	// C03: uniqueness, tiny alphabets so that conflicts are frequent
+	"unique": {Name: "unique", Len: [2]int{15, 45}, MaxK: 7, PIndex: 15, PUnique: 30, PUpper: 20, PLower: 20,
+		PCache: 40, PAsync: 25, PGz: 10, PLowerDir: 10, PExt: 10, SweepEvery: 8, NoHostile: true,
+		Weights: map[string]int{"ins": 45, "many": 8, "bulk": 3, "del": 14, "sdel": 2, "search": 3, "reopen": 8, "get": 4, "control": 2}},
+	// C04: close / reopen at arbitrary positions, whole value domain
+	"reopen": {Name: "reopen", Len: [2]int{12, 40}, MaxK: 10, PIndex: 55, PUnique: 10, PUpper: 10, PLower: 10, Wide: true,
+		PCache: 40, PAsync: 25, PGz: 25, PLowerDir: 20, PExt: 20, SweepEvery: 7, SearchSweep: true, NoHostile: true,
+		Weights: map[string]int{"ins": 35, "many": 5, "del": 8, "reopen": 18, "search": 8, "collect": 8, "aidx": 4, "control": 3, "ls": 2}},
+	// C06 / C15: rejected writes (hooks, uniqueness, unserialisable values), read back through every path
+	"reject": {Name: "reject", Len: [2]int{10, 35}, MaxK: 6, PIndex: 35, PUnique: 25, PUpper: 25, PLower: 25,
+		PCache: 60, PAsync: 35, PGz: 10, PLowerDir: 10, PExt: 10, PBadInput: 45, SweepEvery: 2, NoHostile: true,
+		Weights: map[string]int{"ins": 50, "many": 15, "bulk": 6, "del": 6, "search": 6, "collect": 6, "reopen": 3}},
+	// C07: batches
+	"batch": {Name: "batch", Len: [2]int{8, 25}, MaxK: 10, PIndex: 30, PUnique: 20, PUpper: 15, PLower: 15,
+		PCache: 40, PAsync: 30, PGz: 10, PLowerDir: 10, PExt: 10, PBadInput: 12, SweepEvery: 3, NoHostile: true,
+		Weights: map[string]int{"ins": 12, "many": 45, "bulk": 30, "del": 8, "reopen": 4, "ls": 3}},
+	// C11: divergence between files and index, Control, Repair
+	"fault": {Name: "fault", Len: [2]int{10, 30}, MaxK: 8, PIndex: 40, PUnique: 6, PUpper: 10, PLower: 10,
+		PCache: 30, PAsync: 0, PGz: 20, PLowerDir: 10, PExt: 20, SweepEvery: 9, SearchSweep: true, NoHostile: true,
+		Weights: map[string]int{"ins": 30, "del": 6, "tamper": 22, "control": 14, "repair": 12, "reopen": 10, "search": 4, "collect": 4, "ls": 3}},
+	// C13: order, reverse, limit, one, AssignIndex
+	"order": {Name: "order", Len: [2]int{15, 45}, MaxK: 16, PIndex: 70, PUnique: 2, PUpper: 10, PLower: 10,
+		PCache: 30, PAsync: 15, PGz: 5, PLowerDir: 5, PExt: 5, SweepEvery: 0, NoHostile: true,
+		Weights: map[string]int{"ins": 35, "many": 6, "del": 6, "search": 18, "refine": 10, "collect": 30, "aidx": 12, "reopen": 3}},
+	// C16: case canonicalisation
+	"case": {Name: "case", Len: [2]int{12, 40}, MaxK: 10, PIndex: 40, PUnique: 20, PUpper: 45, PLower: 45,
+		PCache: 30, PAsync: 15, PGz: 5, PLowerDir: 5, PExt: 5, SweepEvery: 8, SearchSweep: true, NoHostile: true,
+		Fields: []string{"S", "Emb.Z", "P.W"}, CaseHeavy: true,
+		Weights: map[string]int{"ins": 40, "many": 6, "del": 5, "search": 20, "refine": 8, "collect": 16, "aidx": 4, "reopen": 4}},
+	// C19 (argument part) / C12 (error outcomes): hostile search arguments
+	"args": {Name: "args", Len: [2]int{10, 30}, MaxK: 6, PIndex: 50, PUnique: 5, PUpper: 20, PLower: 20,
+		PCache: 30, PAsync: 15, PGz: 5, PLowerDir: 5, PExt: 5, PWrongProbe: 30, SweepEvery: 0, EmptyOften: true,
+		Weights: map[string]int{"ins": 14, "del": 6, "delall": 3, "search": 45, "refine": 20, "collect": 14, "aidx": 6}},
+	// C20: a search is a snapshot: writes between evaluation and collection
+	"snapshot": {Name: "snapshot", Len: [2]int{20, 60}, MaxK: 16, PIndex: 60, PUnique: 3, PUpper: 5, PLower: 5,
+		PCache: 40, PAsync: 20, PGz: 5, PLowerDir: 5, PExt: 5, SweepEvery: 0, NoHostile: true,
+		Weights: map[string]int{"ins": 40, "many": 6, "del": 14, "sdel": 3, "search": 14, "refine": 8, "collect": 22}},
+	// C17: schema guard, re-creation, settings switches
+	"guard": {Name: "guard", Len: [2]int{10, 30}, MaxK: 8, PIndex: 35, PUnique: 10, PUpper: 15, PLower: 15,
+		PCache: 50, PAsync: 50, PGz: 20, PLowerDir: 10, PExt: 30, SweepEvery: 5, NoHostile: true,
+		Weights: map[string]int{"ins": 35, "many": 5, "del": 8, "recreate": 16, "reshape": 8, "reopen": 8, "ls": 6, "get": 6}},
+	// C18: layout
+	"layout": {Name: "layout", Len: [2]int{8, 30}, MaxK: 8, PIndex: 35, PUnique: 8, PUpper: 10, PLower: 10,
+		PCache: 40, PAsync: 30, PGz: 50, PLowerDir: 50, PExt: 50, SweepEvery: 0, NoHostile: true,
+		Weights: map[string]int{"ins": 35, "many": 6, "bulk": 3, "del": 10, "sdel": 2, "search": 2, "reopen": 8, "flush": 6, "ls": 20}},
 }
